@@ -375,7 +375,7 @@ events_network_select(const struct timeval * tv,
 	if (tv == NULL)
 		timeout = -1;
 	else if (tv->tv_sec >= INT_MAX / 1000)
-		timeout = INT_MAX;
+		timeout = INT_MAX / 1000 * 1000;
 	else
 		timeout = (int)(tv->tv_sec * 1000 + (tv->tv_usec + 999) / 1000);
 
